@@ -197,7 +197,7 @@ def _e4(vc, branches):
 
 
 @harness('E4', targets=['kopf._cogs.configs.conventions.StorageKeyFormingConvention.make_v2_key'],
-         props=['C16', 'C02', 'C03', 'C04', 'C14'],
+         props=['C16', 'C02', 'C04'],
          clauses=['prefixed', 'name_length', 'short_verbatim', 'long_hashed', 'callees', 'name_charset', 'name_valid'],
          canaries=['canary.never_hashed', 'canary.always_hashed', 'canary.lemma_keeps_all'],
          trusted=['make_suffix: "-" + 5 chars of [A-Za-z0-9.-] + 1 alphanumeric (7 chars), a function of its argument only: '
@@ -225,7 +225,7 @@ def E4(vc):
 
 
 @harness('E4v1', targets=['kopf._cogs.configs.conventions.StorageKeyFormingConvention.make_v1_key'],
-         props=['C16', 'C02', 'C03', 'C04', 'C14'],
+         props=['C16', 'C02', 'C04'],
          clauses=['prefixed', 'name_length', 'short_verbatim', 'long_hashed', 'callees'],
          canaries=['canary.never_hashed', 'canary.always_hashed'],
          trusted=['make_suffix / make_safe_key: lengths only (7 chars / same length), see E4 and E4b'],
@@ -301,7 +301,7 @@ def _random_id(rng, max_len=300):
                          'kopf._cogs.configs.conventions.StorageKeyFormingConvention.make_safe_key',
                          'kopf._cogs.configs.conventions.StorageKeyFormingConvention.make_v1_key',
                          'kopf._cogs.configs.conventions.StorageKeyFormingConvention.make_v2_key'],
-         props=['C16', 'C02', 'C03', 'C04', 'C14'],
+         props=['C16', 'C02', 'C03', 'C04', 'C08', 'C14'],
          clauses=['suffix_shape', 'safe_key', 'charset', 'name_length', 'valid_name', 'make_keys', 'deterministic', 'pure_ast',
                   'same_across_restarts', 'distinct_long_shared_prefix', 'distinct_short'],
          universe='ids: all strings of length 1..3 over {a,Z,0,_,.,/,<,>,-} (819) + seeded random ids of length 1..300 over '
